@@ -738,27 +738,61 @@ func c15Run(cv *c15Curve, sc c15Scenario, dd *c15Dedupe) (res *c15Result) {
 			line.Rec = append(line.Rec, []any{one, logv})
 		}
 	}
-	// ReConstruct on lists that are not subsets of a dealing: ids that coincide modulo q (recorded for the toy trace only;
-	// the property does not speak about it, the model says: error)
-	if cv.Toy != nil && sc.Alter && n >= 2 {
-		qi := int(q.Int64())
-		x0, _ := c15Int(ids[0])
-		s0, _ := c15Int(shares[0].Share)
-		s1, _ := c15Int(shares[1].Share)
-		for _, x1 := range []int{x0, x0 + qi, x0 - qi, x0 - 2*qi} {
-			sub := vss.Shares{{Threshold: 1, ID: big.NewInt(int64(x0)), Share: big.NewInt(int64(s0))}, {Threshold: 1, ID: big.NewInt(int64(x1)), Share: big.NewInt(int64(s1))}}
+	// ReConstruct on lists that are not subsets of a dealing (the property does not speak about them: a departure from the
+	// model is drift, what agrees with it is written to the toy trace):
+	// (1) two ids that coincide modulo q, as representatives of either sign - the model says: error;
+	// (2) the dealt shares written with other representatives (id - q, id + q, share - q: negative and >= q integers for the
+	//     same elements of Z_q) - the model says: the secret, as for the dealt integers (ReprBlindCall).
+	if sc.Alter && n >= 2 {
+		for _, sh := range []int64{0, 1, -1, -2} {
+			x1 := new(big.Int).Add(ids[0], new(big.Int).Mul(q, big.NewInt(sh)))
+			sub := vss.Shares{{Threshold: 1, ID: new(big.Int).Set(ids[0]), Share: new(big.Int).Set(shares[0].Share)}, {Threshold: 1, ID: x1, Share: new(big.Int).Set(shares[1].Share)}}
 			var got *big.Int
 			var rerr error
 			pan := c15Recover(func() { got, rerr = sub.ReConstruct(cv.EC) })
-			if pan != "" {
+			res.Recons++
+			switch {
+			case pan != "":
 				res.Drift = append(res.Drift, "ReConstruct panics on ids equal mod q: "+pan)
-				continue
+			case rerr == nil:
+				res.Drift = append(res.Drift, fmt.Sprintf("ReConstruct on the ids x and x%+d*q returns %s, the model says error (not demanded by the property)", sh, core15ShortP(got)))
+			case cv.Toy != nil:
+				x0v, ok0 := c15Int(ids[0])
+				x1v, ok1 := c15Int(x1)
+				s0, _ := c15Int(shares[0].Share)
+				s1, _ := c15Int(shares[1].Share)
+				if ok0 && ok1 && dd.first(fmt.Sprintf("X|%d|%d|%d|%d", x0v, x1v, s0, s1)) {
+					line.Recx = append(line.Recx, []any{1, []int{x0v, x1v}, []int{s0, s1}, -1})
+				}
 			}
-			logv := -1
-			if rerr == nil && got != nil {
-				logv, _ = c15Int(got)
+		}
+	}
+	if sc.Alter && n >= t+1 {
+		for _, sh := range []int64{-1, 1, -3} {
+			shift := new(big.Int).Mul(q, big.NewInt(sh))
+			sub := make(vss.Shares, n)
+			xl, sl, small := make([]int, n), make([]int, n), true
+			for i := range sub {
+				sub[i] = &vss.Share{Threshold: t, ID: new(big.Int).Add(cv.mod(ids[i]), shift), Share: new(big.Int).Add(cv.mod(shares[i].Share), shift)}
+				var ok1, ok2 bool
+				xl[i], ok1 = c15Int(sub[i].ID)
+				sl[i], ok2 = c15Int(sub[i].Share)
+				small = small && ok1 && ok2
 			}
-			line.Recx = append(line.Recx, []any{1, []int{x0, x1}, []int{s0, s1}, logv})
+			var got *big.Int
+			var rerr error
+			pan := c15Recover(func() { got, rerr = sub.ReConstruct(cv.EC) })
+			res.Recons++
+			switch {
+			case pan != "":
+				res.Drift = append(res.Drift, "ReConstruct panics on the dealt shares written with other representatives: "+pan)
+			case rerr != nil || got == nil || cv.mod(got).Cmp(secretModQ) != 0:
+				res.Drift = append(res.Drift, fmt.Sprintf("ReConstruct on all dealt shares written as id%+d*q, share%+d*q returns %s, %v, the model says the secret (not demanded by the property)", sh, sh, core15ShortP(got), rerr))
+			case cv.Toy != nil && small:
+				if v, ok := c15Int(got); ok && dd.first(fmt.Sprintf("X|%d|%v|%v", t, xl, sl)) {
+					line.Recx = append(line.Recx, []any{t, xl, sl, v})
+				}
+			}
 		}
 	}
 	finish()
@@ -831,7 +865,9 @@ func c15VerifyCalls(cv *c15Curve, sc c15Scenario, rng *rand.Rand, t int, ids []*
 			for j := 0; j < n; j++ {
 				if j != i {
 					idAlts = append(idAlts, alt{"other-party", ids[j]})
-					idAlts = append(idAlts, alt{"other-party-q", new(big.Int).Sub(cv.mod(ids[j]), q)})
+					if j == (i+1)%n { // one other party's id written as a negative integer
+						idAlts = append(idAlts, alt{"other-party-q", new(big.Int).Sub(cv.mod(ids[j]), q)})
+					}
 				}
 			}
 			shAlts = []alt{
